@@ -1,0 +1,16 @@
+//go:build verif
+
+package bitcoin
+
+// Ghost lemma functions for the verifier in /verif: never called and never built without the `verif` tag.
+
+import "io"
+
+// A BIP-340 signature made by Sign verifies under the signer's x-only public key.
+func verifLemmaSchnorrSignVerifies(k *SchnorrPrivateKey, rand io.Reader, msg []byte) bool {
+	sig, err := k.Sign(rand, msg, nil)
+	if err != nil {
+		return true
+	}
+	return k.PublicKey().Verify(msg, sig)
+}
